@@ -1332,6 +1332,7 @@ func simulate(r *core.R) {
 	}
 	converge := func(what string) {
 		deadline := time.Now().Add(bound)
+		pace := 20 * time.Millisecond
 		for {
 			drain()
 			cv := h.cacheView()
@@ -1353,7 +1354,10 @@ func simulate(r *core.R) {
 				r.Violation("no_convergence", "%s: %v of simulated time after faults stopped and upstream went idle, client %s still differs from the server cache: %s; client {%s} cache {%s}",
 					what, bound, who.tag(), bad, view, fmtView(cv))
 			}
-			advance(50 * time.Millisecond)
+			advance(pace)
+			if pace *= 2; pace > time.Second {
+				pace = time.Second
+			}
 		}
 	}
 	finalCheck := func(what string) {
